@@ -7,11 +7,6 @@ package grammar
 // ---------------------------------------------------------------------------------------------
 // C14: map iteration order
 
-//@ func (*Grammar).CalculateCanTerminate
-//@ props C14
-//@ order_only
-//@ loop 3: order_assumed only the emptiness of the result decides anything (generation is refused when it is non-empty); its order shows only in the diagnostic printed to stdout
-
 // ---------------------------------------------------------------------------------------------
 // C09: closure of an LR(0) item set
 
@@ -56,3 +51,53 @@ package grammar
 //@ loop 1: invariant forall k int :: 0 <= k && k < len(items) ==> items[k] != nil && allocated(items[k]) && items[k].Dot == 0 && 0 <= items[k].RuleIndex && items[k].RuleIndex < len(g.ProductoinRules)
 //@ loop 2: invariant okItems(g, IC)
 //@ loop 2: invariant forall k int :: 0 <= k && k < len(items) ==> items[k] != nil && allocated(items[k]) && items[k].Dot == 0 && 0 <= items[k].RuleIndex && items[k].RuleIndex < len(g.ProductoinRules)
+
+// ---------------------------------------------------------------------------------------------
+// C12: productive ("can terminate") and nullable nonterminals are least fixpoints over the rules.
+//   closed:     when the loop stops, every rule whose right-hand side is all marked has a marked left-hand side
+//   justified:  a symbol is marked only at a moment when all right-hand-side symbols of some rule of it are
+//               already marked (so marks can be ranked by the time they were made: the marked set is the LEAST
+//               closed set - standard argument, not mechanised)
+//   monotone:   marks are never removed; nothing else is written
+
+//@ def allTerm(r *rule.ProductoinRule, n int) = forall k int :: 0 <= k && k < n ==> r.RighPart[k].CanTerminate
+//@ def closedTerm(g *Grammar, n int) = forall j int :: 0 <= j && j < n && allTerm(g.ProductoinRules[j], len(g.ProductoinRules[j].RighPart)) ==> g.ProductoinRules[j].LeftPart.CanTerminate
+
+//@ func (*Grammar).CalculateCanTerminate
+//@ props C12
+//@ results inf_cycles
+//@ requires wfRules(g) && (forall s *symbol.Symbol :: has(g.VnSet, s) ==> s != nil)
+//@ ensures [C12] closedTerm(g, len(g.ProductoinRules))
+//@ ensures [C12] forall s *symbol.Symbol :: old(s.CanTerminate) ==> s.CanTerminate
+//@ ensures [C12] forall i int :: 0 <= i && i < len(inf_cycles) ==> has(g.VnSet, inf_cycles[i]) && !inf_cycles[i].CanTerminate
+//@ ensures [C12] forall s *symbol.Symbol :: has(g.VnSet, s) && !s.CanTerminate ==> (exists i int :: 0 <= i && i < len(inf_cycles) && inf_cycles[i] == s)
+//@ ensures [C12] (len(inf_cycles) == 0) == (forall s *symbol.Symbol :: has(g.VnSet, s) ==> s.CanTerminate)
+//@ modifies symbol.Symbol.CanTerminate
+//@ loop 0: invariant forall s *symbol.Symbol :: old(s.CanTerminate) ==> s.CanTerminate
+//@ loop 0: after closedTerm(g, len(g.ProductoinRules))
+//@ loop 1: invariant 0 <= change
+//@ loop 1: invariant forall s *symbol.Symbol :: before(s.CanTerminate) ==> s.CanTerminate
+//@ loop 1: invariant change == 0 ==> (forall s *symbol.Symbol :: s.CanTerminate == before(s.CanTerminate)) && closedTerm(g, idx1)
+//@ loop 2: invariant every_CanTerm == allTerm(r, idx2)
+// justified: the mark is set only when the whole right-hand side is already marked
+//@ before_stmt [C12] "r.LeftPart.CanTerminate = true" allTerm(r, len(r.RighPart))
+//@ loop 3: invariant forall i int :: 0 <= i && i < len(inf_cycles) ==> has(g.VnSet, inf_cycles[i]) && !inf_cycles[i].CanTerminate
+//@ loop 3: invariant forall s *symbol.Symbol :: seen(s) && !s.CanTerminate ==> (exists i int :: 0 <= i && i < len(inf_cycles) && inf_cycles[i] == s)
+//@ loop 3: order_assumed only the emptiness of the result decides anything (generation is refused when it is non-empty); its order shows only in the diagnostic printed to stdout
+
+//@ def allEps(r *rule.ProductoinRule, n int) = forall k int :: 0 <= k && k < n ==> r.RighPart[k].IsNonTerminator && r.RighPart[k].IsEpsilonClosure
+//@ def closedEps(g *Grammar, n int) = forall j int :: 0 <= j && j < n && allEps(g.ProductoinRules[j], len(g.ProductoinRules[j].RighPart)) ==> g.ProductoinRules[j].LeftPart.IsEpsilonClosure
+
+//@ func (*Grammar).CalculateEpsilonClosure
+//@ props C12 C03
+//@ requires wfRules(g)
+//@ ensures [C12,C03] closedEps(g, len(g.ProductoinRules))
+//@ ensures [C12] forall s *symbol.Symbol :: (old(s.IsEpsilonClosure) ==> s.IsEpsilonClosure) && (old(s.CanTerminate) ==> s.CanTerminate)
+//@ modifies symbol.Symbol.IsEpsilonClosure, symbol.Symbol.CanTerminate
+//@ loop 0: invariant forall s *symbol.Symbol :: (old(s.IsEpsilonClosure) ==> s.IsEpsilonClosure) && (old(s.CanTerminate) ==> s.CanTerminate)
+//@ loop 0: after closedEps(g, len(g.ProductoinRules))
+//@ loop 1: invariant 0 <= change
+//@ loop 1: invariant forall s *symbol.Symbol :: (before(s.IsEpsilonClosure) ==> s.IsEpsilonClosure) && (before(s.CanTerminate) ==> s.CanTerminate)
+//@ loop 1: invariant change == 0 ==> (forall s *symbol.Symbol :: s.IsEpsilonClosure == before(s.IsEpsilonClosure)) && closedEps(g, idx1)
+//@ loop 2: invariant every_isEpsilon == allEps(r, idx2)
+//@ before_stmt [C12,C03] "r.LeftPart.IsEpsilonClosure = true" allEps(r, len(r.RighPart))
